@@ -296,6 +296,9 @@ def g_usend(rng):
         us.request.input = produce_or_raise(_obj, o, inner)
         if rng.random() < 0.2:
             us.request.input = bytearray(g_int(rng, 8) for _ in range(rng.choice([1, 2, 3, 7])))
+        elif rng.random() < 0.03:
+            # an embedded message whose length needs all 16 bits of the length word
+            us.request.input = bytearray(rng.randrange(256) for _ in range(rng.choice([0x7fff, 0x8000, 0x8001, 40000])))
         us.route_path = g_path(rng, n=rng.choice([0, 1, 1, 2]), kinds=("port",))
     elif k < 0.75:
         us.service = 0xd2
